@@ -451,3 +451,152 @@ func constInt(v ssa.Value) (int64, bool) {
 	}
 	return 0, false
 }
+
+// interprocedural helpers ------------------------------------------------------
+//
+// Behaviour-preserving refactorings move code into helpers.  Rules that ask
+// "is this instruction only reached under guard G" or "does this function do X"
+// therefore look through statically called, same-package helpers.
+
+var callSiteCache = map[*Prog]map[*ssa.Function][]ssa.CallInstruction{}
+var valueUseCache = map[*Prog]map[*ssa.Function]bool{}
+
+func (p *Prog) indexCalls() {
+	if _, ok := callSiteCache[p]; ok {
+		return
+	}
+	sites := map[*ssa.Function][]ssa.CallInstruction{}
+	asValue := map[*ssa.Function]bool{}
+	for fn := range p.Funcs {
+		if !p.InRepo(fn) || fn.Blocks == nil {
+			continue
+		}
+		eachInstr(fn, func(in ssa.Instruction) {
+			if c, ok := in.(ssa.CallInstruction); ok {
+				if callee := c.Common().StaticCallee(); callee != nil && c.Common().Value == ssa.Value(callee) {
+					if _, isGo := in.(*ssa.Go); isGo {
+						asValue[callee] = true
+					} else {
+						sites[callee] = append(sites[callee], c)
+					}
+				}
+			}
+			for _, op := range in.Operands(nil) {
+				if g, ok := (*op).(*ssa.Function); ok {
+					if c, ok := in.(ssa.CallInstruction); ok && c.Common().Value == ssa.Value(g) {
+						continue
+					}
+					asValue[g] = true
+				}
+			}
+		})
+	}
+	callSiteCache[p] = sites
+	valueUseCache[p] = asValue
+}
+
+// staticCallSites returns the static call sites of fn and whether those are all its uses
+// (not exported, never used as a value, not a method that satisfies an interface dynamically).
+func (p *Prog) staticCallSites(fn *ssa.Function) ([]ssa.CallInstruction, bool) {
+	p.indexCalls()
+	only := !valueUseCache[p][fn] && fn.Parent() == nil
+	if obj, ok := fn.Object().(*types.Func); ok && obj.Exported() {
+		only = false
+	}
+	// dynamic callers through interfaces
+	if n := p.CG.Nodes[fn]; n != nil {
+		for _, e := range n.In {
+			if e.Site != nil && e.Site.Common().StaticCallee() != fn {
+				only = false
+			}
+		}
+	}
+	return callSiteCache[p][fn], only
+}
+
+// guardHolds reports whether pred holds for a condition dominating blk, or, when blk's
+// function is a helper with only static call sites, at every one of those call sites.
+func guardHolds(p *Prog, blk *ssa.BasicBlock, pred func(condTruth) bool, depth int) bool {
+	for _, ct := range dominatingConds(blk) {
+		if pred(ct) {
+			return true
+		}
+	}
+	if depth <= 0 {
+		return false
+	}
+	fn := blk.Parent()
+	if fn.Parent() != nil {
+		// a closure: the guard may dominate the point where the closure is created
+		okAll := false
+		eachInstr(fn.Parent(), func(in ssa.Instruction) {
+			if mc, ok := in.(*ssa.MakeClosure); ok && mc.Fn == ssa.Value(fn) {
+				okAll = guardHolds(p, mc.Block(), pred, depth-1)
+			}
+		})
+		return okAll
+	}
+	sites, only := p.staticCallSites(fn)
+	if !only || len(sites) == 0 {
+		return false
+	}
+	for _, s := range sites {
+		if !guardHolds(p, s.Block(), pred, depth-1) {
+			return false
+		}
+	}
+	return true
+}
+
+// withCallees returns fn, its closures, and the same-package repo functions it
+// statically calls (transitively up to depth).
+func withCallees(p *Prog, fn *ssa.Function, depth int) []*ssa.Function {
+	seen := map[*ssa.Function]bool{}
+	var out []*ssa.Function
+	var walk func(f *ssa.Function, d int)
+	walk = func(f *ssa.Function, d int) {
+		if f == nil || seen[f] || f.Blocks == nil {
+			return
+		}
+		seen[f] = true
+		out = append(out, f)
+		for _, a := range f.AnonFuncs {
+			walk(a, d)
+		}
+		if d <= 0 {
+			return
+		}
+		eachCall(f, func(c ssa.CallInstruction) {
+			callee := c.Common().StaticCallee()
+			if callee != nil && p.InRepo(callee) && callee.Pkg != nil && rootFn(fn).Pkg != nil && callee.Pkg == rootFn(fn).Pkg {
+				walk(callee, d-1)
+			}
+		})
+	}
+	walk(fn, depth)
+	return out
+}
+
+// onlyCalledFrom reports whether fn is root itself or a helper reached only by static calls
+// that all originate (transitively) in root.
+func onlyCalledFrom(p *Prog, fn, root *ssa.Function, depth int) bool {
+	if fn == root {
+		return true
+	}
+	if fn.Parent() != nil {
+		return onlyCalledFrom(p, fn.Parent(), root, depth)
+	}
+	if depth <= 0 {
+		return false
+	}
+	sites, only := p.staticCallSites(fn)
+	if !only || len(sites) == 0 {
+		return false
+	}
+	for _, s := range sites {
+		if !onlyCalledFrom(p, s.Parent(), root, depth-1) {
+			return false
+		}
+	}
+	return true
+}
